@@ -7,4 +7,7 @@ open Distill.Gen
 theorem fam0_cells : ∀ c ∈ allCells, cellOk fam0 c.1 c.2 = true := by
   decide +kernel
 
+theorem fam0_bare : ∀ n ∈ allN, bareOk fam0 n = true := by
+  decide +kernel
+
 end Distill.C17
